@@ -743,7 +743,12 @@ def compute_deviation(surveys: np.ndarray) -> np.ndarray:
     for component in [deviation_x, deviation_y, deviation_z]:
         dl_in = component(surveys[:-1, 1], surveys[:-1, 2])
         dl_out = component(surveys[1:, 1], surveys[1:, 2])
-        ddl = np.divide(dl_out - dl_in, lengths, where=lengths != 0)
+        ddl = np.divide(
+            dl_out - dl_in,
+            lengths,
+            out=np.zeros_like(lengths, dtype=float),
+            where=lengths != 0,
+        )
         deviation += [dl_in + lengths * ddl / 2.0]
 
     return np.vstack(deviation).T
